@@ -139,6 +139,7 @@ Up == nextEp <= MaxEp /\ nextSid <= MaxSid
 \* prepareSegment: allocate the segment id, compute optimistic obsoletes against
 \* the root seen NOW (the introducer may have moved on by the time it applies).
 Prepare(w, bt) ==
+  /\ UNCHANGED rst
   /\ Up /\ wst[w].st = "idle" /\ nsub < MaxB
   /\ LET n == nsub + 1 IN
      /\ batch' = [batch EXCEPT ![n] = bt] /\ nsub' = n
@@ -152,6 +153,7 @@ Prepare(w, bt) ==
 
 \* introducer.go introduceSegment
 IntroSegment(w) ==
+  /\ UNCHANGED rst
   /\ Up /\ wst[w].st = "prepared"
   /\ LET b == wst[w].b
          r == IntroSegmentResult(segdocs, root, batch[b], wst[w].sid, wst[w].obs) IN
@@ -167,6 +169,7 @@ IntroSegment(w) ==
 
 \* safe mode: Batch returns after <-introduction.persisted
 BatchReturn(w) ==
+  /\ UNCHANGED rst
   /\ wst[w].st = "applied" /\ wst[w].b \in acked
   /\ wst' = [wst EXCEPT ![w] = IdleW]
   /\ UNCHANGED <<batch, nsub, intro, segdocs, root, nextEp, nextSid, pend, acked, pPc, pSnap, pAcks, pNew, lastP,
@@ -175,6 +178,7 @@ BatchReturn(w) ==
 
 \* ---------------- persister (persister.go) ----------------
 PTake ==
+  /\ UNCHANGED rst
   /\ Up /\ pPc = "idle" /\ root.ep > lastP
   /\ pSnap' = root /\ pAcks' = pend /\ pend' = {}
   /\ pPc' = IF WithMemMerge /\ Cardinality(MemSids(root)) >= 2 THEN "mmWrite" ELSE "write"
@@ -186,6 +190,7 @@ PTake ==
 \* in-memory segments of pSnap into one new FILE (fused: nobody can observe the
 \* state between the mark and the write, DESIGN 2.4)
 PMMWrite ==
+  /\ UNCHANGED rst
   /\ Up /\ pPc = "mmWrite"
   /\ pNew' = nextSid /\ nextSid' = nextSid + 1
   /\ inel' = inel \cup {FileOf(nextSid)} /\ disk' = disk \cup {FileOf(nextSid)}
@@ -196,6 +201,7 @@ PMMWrite ==
   /\ dirty' = TRUE
 
 PMMIntro ==
+  /\ UNCHANGED rst
   /\ Up /\ pPc = "mmIntro"
   /\ LET r == IntroMergeResult(segdocs, root, pSnap, MemSids(pSnap), pNew, segdocs[pNew], TRUE) IN
      /\ root' = [ep |-> nextEp, segs |-> r.segs, k |-> root.k]
@@ -208,6 +214,7 @@ PMMIntro ==
 
 \* persistSnapshotMaybeMerge: persist the EQUIVALENT snapshot under the OLD epoch
 PMMCommit ==
+  /\ UNCHANGED rst
   /\ pPc = "mmCommit"
   /\ LET eq == [ep |-> pSnap.ep, k |-> pSnap.k,
                 segs |-> SelectSeq(pSnap.segs, LAMBDA e : e.f) \o <<[sid |-> pNew, del |-> {}, f |-> TRUE]>>] IN
@@ -220,6 +227,7 @@ PMMCommit ==
 
 \* persistSnapshotDirect: write every in-memory segment of pSnap to its file
 PWrite ==
+  /\ UNCHANGED rst
   /\ pPc = "write" /\ disk' = disk \cup FN(MemSids(pSnap))
   /\ pPc' = IF MemSids(pSnap) = {} THEN "commit" ELSE "intro"
   /\ UNCHANGED <<batch, nsub, intro, segdocs, root, nextEp, nextSid, wst, pend, acked, pSnap, pAcks, pNew, lastP,
@@ -227,6 +235,7 @@ PWrite ==
   /\ dirty' = TRUE
 
 PIntro ==
+  /\ UNCHANGED rst
   /\ Up /\ pPc = "intro"
   /\ root' = [ep |-> nextEp, segs |-> IntroPersistResult(root, MemSids(pSnap)), k |-> root.k]
   /\ nextEp' = nextEp + 1 /\ pPc' = "commit"
@@ -236,6 +245,7 @@ PIntro ==
 
 \* tx.Commit + Sync, then un-mark the names the committed snapshot carries
 PCommit ==
+  /\ UNCHANGED rst
   /\ pPc = "commit"
   /\ LET s == [ep |-> pSnap.ep, k |-> pSnap.k,
                segs |-> [ i \in 1..Len(pSnap.segs) |-> [pSnap.segs[i] EXCEPT !.f = TRUE] ]] IN
@@ -247,6 +257,7 @@ PCommit ==
 
 \* close the persisted channels / fire callbacks of the batches taken in PTake
 PAck ==
+  /\ UNCHANGED rst
   /\ pPc = "ack" /\ acked' = acked \cup pAcks /\ lastP' = pSnap.ep
   /\ pPc' = IF root.ep # pSnap.ep \/ ~WithPurge THEN "idle" ELSE "purgeB"
   /\ UNCHANGED <<batch, nsub, intro, segdocs, root, nextEp, nextSid, wst, pend, pSnap, pAcks, pNew,
@@ -256,6 +267,7 @@ PAck ==
 \* IndexSnapshot.DecRef reaching zero -> go AddEligibleForRemoval(epoch)
 \* (asynchronous; modelled as an independent step for any epoch nobody holds)
 Release(e) ==
+  /\ UNCHANGED rst
   /\ AsyncRelease /\ e \in 1..(nextEp - 1) /\ e # root.ep /\ e \notin Held /\ e \notin elig
   /\ e >= rst.base      \* only a snapshot object of THIS process life has a reference count to drop
   /\ elig' = elig \cup {e}
@@ -266,6 +278,7 @@ Release(e) ==
 \* the persister loop also runs when only woken by the merger (no new snapshot):
 \* it then goes straight to removeOldData
 PWakePurge ==
+  /\ UNCHANGED rst
   /\ WithPurge /\ pPc = "idle" /\ dirty /\ root.ep = lastP
   /\ pPc' = "purgeB"
   /\ UNCHANGED <<batch, nsub, intro, segdocs, root, nextEp, nextSid, wst, pend, acked, pSnap, pAcks, pNew, lastP,
@@ -274,6 +287,7 @@ PWakePurge ==
 \* removeOldBoltSnapshots: eligible epochs that are not among the newest KeepN
 EligNow == IF AsyncRelease THEN elig ELSE elig \cup { e \in 1..(nextEp - 1) : e >= rst.base /\ e # root.ep /\ e \notin Held }
 PPurgeB ==
+  /\ UNCHANGED rst
   /\ pPc = "purgeB"
   /\ LET rem == { e \in EligNow : e \notin NewestOf(bolt, KeepN) } IN
      /\ bolt' = [ e \in 1..MaxEp |-> IF e \in rem THEN NoSnap ELSE bolt[e] ]
@@ -285,6 +299,7 @@ PPurgeB ==
 
 \* removeOldZapFiles: remove what no bolt snapshot names, unless ineligible or scheduled for copy
 PPurgeZ ==
+  /\ UNCHANGED rst
   /\ pPc = "purgeZ"
   /\ disk' = { f \in disk : f \in FN(Named) \/ f \in inel \/ f \in cSched }
   /\ pPc' = "idle"
@@ -293,7 +308,7 @@ PPurgeZ ==
   /\ UNCHANGED dirty
 
 \* ---------------- file merger (merge.go) ----------------
-MTake == /\ Up /\ WithMerger /\ mPc = "idle" /\ root.ep # lastM /\ root.ep > 0
+MTake == /\ UNCHANGED rst /\ Up /\ WithMerger /\ mPc = "idle" /\ root.ep # lastM /\ root.ep > 0
          /\ mSnap' = root /\ mPc' = "plan"
          /\ UNCHANGED <<batch, nsub, intro, segdocs, root, nextEp, nextSid, wst, pend, acked, pPc, pSnap, pAcks, pNew, lastP,
                         mTask, mNew, lastM, bolt, disk, inel, elig, rdr, cPc, cSnap, cSched, cCopied, nopen>>
@@ -302,6 +317,7 @@ MTake == /\ Up /\ WithMerger /\ mPc = "idle" /\ root.ep # lastM /\ root.ep > 0
 \* any plan the planner may produce: a task over file segments of the snapshot
 \* (mark the new name, merge, write the file: fused as for the persister)
 MPlanWrite(T) ==
+  /\ UNCHANGED rst
   /\ Up /\ mPc = "plan" /\ T \subseteq Files(mSnap)
   /\ (MaxMergeInputs = 0 \/ Cardinality(T) <= MaxMergeInputs)
   /\ IF T = {} \/ MergedDocsOf(segdocs, mSnap, T) = {}
@@ -316,6 +332,7 @@ MPlanWrite(T) ==
   /\ dirty' = TRUE
 
 MIntro ==
+  /\ UNCHANGED rst
   /\ Up /\ mPc = "intro"
   /\ LET r == IntroMergeResult(segdocs, root, mSnap, mTask, mNew, segdocs[mNew], TRUE) IN
      /\ root' = [ep |-> nextEp, segs |-> r.segs, k |-> root.k]
@@ -328,6 +345,7 @@ MIntro ==
 
 \* skipped introduction: un-mark the new file; always (deferred cleanup): un-mark the inputs
 MClean ==
+  /\ UNCHANGED rst
   /\ mPc \in {"cleanSkip", "cleanOk"}
   /\ inel' = IF mPc = "cleanSkip" THEN (inel \ {FileOf(mNew)}) \ FN(mTask) ELSE inel \ FN(mTask)
   /\ lastM' = mSnap.ep /\ mPc' = "idle"
@@ -340,6 +358,7 @@ MClean ==
 \* are still in the root and keep whatever protection they had.  The request may
 \* be retried on the same root (lastM unchanged).
 MFail ==
+  /\ UNCHANGED rst
   /\ WithMergeFail /\ mPc = "intro"
   /\ inel' = inel \ {FileOf(mNew)}
   /\ mPc' = "idle"
@@ -348,28 +367,28 @@ MFail ==
   /\ dirty' = TRUE
 
 \* ---------------- reader ----------------
-ROpen == /\ WithReader /\ rdr = NoSnap /\ root.ep > 0 /\ rdr' = root /\ nopen < MaxOpens /\ nopen' = nopen + 1
+ROpen == /\ UNCHANGED rst /\ WithReader /\ rdr = NoSnap /\ root.ep > 0 /\ rdr' = root /\ nopen < MaxOpens /\ nopen' = nopen + 1
          /\ UNCHANGED <<batch, nsub, intro, segdocs, root, nextEp, nextSid, wst, pend, acked, pPc, pSnap, pAcks, pNew, lastP,
                         mPc, mSnap, mTask, mNew, lastM, bolt, disk, inel, elig, cPc, cSnap, cSched, cCopied, dirty>>
-RClose == /\ rdr # NoSnap /\ rdr' = NoSnap
+RClose == /\ UNCHANGED rst /\ rdr # NoSnap /\ rdr' = NoSnap
           /\ UNCHANGED <<batch, nsub, intro, segdocs, root, nextEp, nextSid, wst, pend, acked, pPc, pSnap, pAcks, pNew, lastP,
                          mPc, mSnap, mTask, mNew, lastM, bolt, disk, inel, elig, cPc, cSnap, cSched, cCopied, dirty, nopen>>
 
 \* ---------------- online copy (CopyReader / CopyTo / CloseCopyReader) ----------------
 \* CopyReader schedules every file name of the root, including the names
 \* in-memory segments WILL get when persisted.
-COpen == /\ WithCopy /\ cPc = "idle" /\ root.ep > 0 /\ nopen < MaxOpens /\ nopen' = nopen + 1
+COpen == /\ UNCHANGED rst /\ WithCopy /\ cPc = "idle" /\ root.ep > 0 /\ nopen < MaxOpens /\ nopen' = nopen + 1
          /\ cSnap' = root /\ cSched' = (IF CopySchedById THEN Sids(root) ELSE FN(Sids(root)))
          /\ cCopied' = {} /\ cPc' = "copying"
          /\ UNCHANGED <<batch, nsub, intro, segdocs, root, nextEp, nextSid, wst, pend, acked, pPc, pSnap, pAcks, pNew, lastP,
                         mPc, mSnap, mTask, mNew, lastM, bolt, disk, inel, elig, rdr>>
          /\ dirty' = TRUE
 \* one segment: a file segment is copied from the directory, an in-memory one is written afresh
-CFile(s) == /\ cPc = "copying" /\ s \in Sids(cSnap) \ cCopied
+CFile(s) == /\ UNCHANGED rst /\ cPc = "copying" /\ s \in Sids(cSnap) \ cCopied
             /\ cCopied' = cCopied \cup {s}
             /\ UNCHANGED <<batch, nsub, intro, segdocs, root, nextEp, nextSid, wst, pend, acked, pPc, pSnap, pAcks, pNew, lastP,
                            mPc, mSnap, mTask, mNew, lastM, bolt, disk, inel, elig, rdr, cPc, cSnap, cSched, dirty, nopen>>
-CClose == /\ cPc = "copying" /\ cCopied = Sids(cSnap)
+CClose == /\ UNCHANGED rst /\ cPc = "copying" /\ cCopied = Sids(cSnap)
           /\ cPc' = "idle" /\ cSched' = {} /\ cSnap' = NoSnap
           /\ UNCHANGED <<batch, nsub, intro, segdocs, root, nextEp, nextSid, wst, pend, acked, pPc, pSnap, pAcks, pNew, lastP,
                          mPc, mSnap, mTask, mNew, lastM, bolt, disk, inel, elig, rdr, cCopied, nopen>>
@@ -405,13 +424,13 @@ Restart ==
   /\ dirty' = TRUE
   /\ UNCHANGED <<batch, nsub, segdocs, bolt, nopen>>
 
-NextLife == \/ \E w \in Writers, bt \in BatchShapes : Prepare(w, bt)
+Next == \/ \E w \in Writers, bt \in BatchShapes : Prepare(w, bt)
         \/ \E w \in Writers : IntroSegment(w) \/ BatchReturn(w)
         \/ PTake \/ PMMWrite \/ PMMIntro \/ PMMCommit \/ PWrite \/ PIntro \/ PCommit \/ PAck
         \/ (WithPurge /\ ((\E e \in 1..MaxEp : Release(e)) \/ PWakePurge \/ PPurgeB \/ PPurgeZ))
         \/ MTake \/ (\E T \in SUBSET Files(mSnap) : MPlanWrite(T)) \/ MIntro \/ MClean \/ MFail
         \/ ROpen \/ RClose \/ COpen \/ (\E s \in 1..MaxSid : CFile(s)) \/ CClose
-Next == (NextLife /\ UNCHANGED rst) \/ Restart
+        \/ Restart
 Spec == Init /\ [][Next]_vars
 
 -----------------------------------------------------------------------------
